@@ -72,8 +72,11 @@ def names (req : Json) : R Reply := do
   let m := finalOrder i
   let renamed := holdsRenamed i obs
   let distinct := holdsDistinct obs
+  -- diagnostic for `classify_failure` only: the per-glyph predicate with NO name reserved for unrenamed glyphs
+  let renamedNoReserve := holdsRenamedFrom [] i obs
   let model := Json.mkObj [("order", namesJ m), ("branches", strsJ (branchTags i obs)),
-    ("checks", Json.mkObj [("renamed", renamed), ("distinct", distinct), ("covers", covers i)])]
+    ("checks", Json.mkObj [("renamed", renamed), ("distinct", distinct), ("covers", covers i),
+      ("renamedNoReserve", renamedNoReserve)])]
   return { model, holds := renamed && distinct }
 
 /-- op "process": one `process_glyph_names` call inside a real compile;
@@ -124,6 +127,7 @@ def process (req : Json) : R Reply := do
       let odropped := ofmt == 30 && !s.cff1
       let o : Output := { order := if odropped then i.order else oorder.getD [], postFormat := ofmt, extraNames := oextra }
       let renamed := if specRename s then holdsRenamed i o.order else o.order == i.order
+      let renamedNoReserve := if specRename s then holdsRenamedFrom [] i o.order else o.order == i.order
       let distinct := !specRename s || holdsDistinct o.order
       let fmtOk := ofmt == specPostFormat s before
       let extraOk := holdsExtra o.order ofmt oextra
@@ -135,7 +139,7 @@ def process (req : Json) : R Reply := do
       let present := odropped || oorder.isSome
       let holds := holdsProcess s i before (.ok o) && tablesOk && savedOk && writeOk && present
       let checks := Json.mkObj [("noerror", true), ("renamed", renamed), ("distinct", distinct), ("covers", covers i),
-        ("format", fmtOk), ("extra", extraOk), ("tables", tablesOk), ("saved", savedOk), ("write", writeOk),
+        ("renamedNoReserve", renamedNoReserve), ("format", fmtOk), ("extra", extraOk), ("tables", tablesOk), ("saved", savedOk), ("write", writeOk),
         ("present", present)]
       return { model := mkModel checks (if specRename s then branchTags i o.order else []), holds }
 
